@@ -396,6 +396,7 @@ class BaseSamples:
             parameters=samples.parameters,
             xp=xp,
             device=device,
+            dtype=dtype,
             **kwargs,
         )
 
